@@ -100,7 +100,13 @@ func (c *cache) flushScheduler() {
 					case <-c.closeCh:
 						return
 					}
-					b = sortedAddrs[i:i]
+					// the next batch starts with the current address unless it
+					// has just been sent
+					if handledAddr {
+						b = sortedAddrs[i+1 : i+1]
+					} else {
+						b = sortedAddrs[i:i]
+					}
 					bs = 0
 				}
 				if handledAddr {
